@@ -167,14 +167,14 @@ def check_writer(prog, rep, body, asep, site):
     pre, iters, bad = [], [0], []
 
     def chook(I_, s, call, cbody):
-        if call.path == "core::str::<impl str>::chars" and call.ctx.body["id"] == body["id"]:
+        if call.path == "core::str::<impl str>::chars" and call.ctx.body["path"].startswith("link_format::"):
             sl = summaries2.as_slice(I_, s, call.args[0], call.arg_tys[0])
             if sl is not None and val_s is not None and sl.base == val_s.base:
                 pre.append(tuple(s.ghost.get("w", ())))
     I.call_hooks.append(chook)
 
     def lhook(I_, ctx, h, head, backs, exits):
-        if ctx.body["id"] != body["id"]:
+        if not ctx.body["path"].startswith("link_format::"):
             return
         for b_ in backs:
             iters[0] += 1
@@ -198,6 +198,7 @@ def check_writer(prog, rep, body, asep, site):
                     [("ESC" if w == ("const", ESC) else "the character" if w == ("char", c0.aff) else norm(w)) for w in ws] or "nothing"))
     I.loop_hooks.append(lhook)
     I.no_join_bodies.add(body["id"])
+    I.no_join_prefixes = ("link_format::",)
     I.unroll_max_blocks = 0
     I, res = run(prog, body, args=args, st=st, I=I, gargs=gargs)
     rep.analysed.update(prog.bodies[b]["path"] for b in I.visited_bodies if b in prog.bodies)
@@ -241,7 +242,7 @@ def check_scanner(prog, rep, body, inner_heads, tag, site, self_setup=None):
     bad, n = [], [0, 0]
 
     def lhook(I_, ctx, h, head, backs, exits):
-        if ctx.body["id"] != body["id"] or h not in inner_heads:
+        if (ctx.body["id"], h) not in inner_heads:
             return
         hr = head.ghost.get("r")
         for b_ in backs:
@@ -345,3 +346,221 @@ def check_unquote(prog, rep, body, site):
     rep.ob("C16.6", "unquote|quoted-step", not bad and n >= 4,
            "Unquote::next in the Quoted state: %s (paths: %d)" % ("; ".join(sorted(set(bad))[:2]) or "too few paths", n), site,
            sample={"rule": "C16.6", "paths": n})
+
+
+# ---------------------------------------------------------------------------------------------------------------
+# Structure-agnostic writer rules (C16.2, C16.3 writer side, C16.7): the public writer methods are run with the
+# logging sink; what counts is the sequence of writes per path, not which private helper performs them.
+
+def closure_alnum_kind(prog, body):
+    """'alnum' / 'not-alnum' for a closure char -> bool that returns (the negation of) is_ascii_alphanumeric(c)"""
+    calls = [bb["term"] for bb in body["blocks"] if bb["term"]["k"] == "call" and not bb.get("cleanup")]
+    if len(calls) != 1 or not (calls[0].get("resolved") or calls[0].get("callee") or {}).get("path", "").endswith("is_ascii_alphanumeric"):
+        return None
+    dest = calls[0]["dest"]["l"] if calls[0].get("dest") else None
+    if dest == 0:
+        return "alnum"
+    for bb in body["blocks"]:
+        for st_ in bb["stmts"]:
+            if st_["k"] == "assign" and st_["place"]["l"] == 0 and not st_["place"]["p"]:
+                rv = st_["rv"]
+                if rv["k"] == "un" and rv["op"] == "Not" and rv.get("a", {}).get("place", {}).get("l") == dest:
+                    return "not-alnum"
+                if rv["k"] == "use" and isinstance(rv.get("op"), dict) and rv["op"].get("place", {}).get("l") == dest:
+                    return "alnum"
+    return None
+
+
+def instrument_writer(I, prog):
+    """sink + formatting models that keep what is written; verdict marks for 'every character is ASCII alphanumeric'"""
+    instrument2(I)
+    from summaries import boolv, mk_none, mk_option
+
+    def m_new_display(I_, st, call):
+        a = call.args[0]
+        v = I_.read(st, a.place) if isinstance(a, RefV) else a
+        return [(st, OpaqueV(call.dest_ty, (("display_of", v),)))]
+
+    def m_arguments_new(I_, st, call):
+        tmpl = call.arg_tys[0]
+        n = None
+        if tmpl and tmpl[0] == "ref" and tmpl[2][0] == "array":
+            n = tmpl[2][2]
+        arr = call.args[1]
+        av = I_.read(st, arr.place) if isinstance(arr, RefV) else arr
+        if isinstance(av, RefV):
+            av = I_.read(st, av.place)
+        elems = av.get("elems") if isinstance(av, OpaqueV) else None
+        if elems is None and isinstance(arr, SliceV) and isinstance(arr.base, tuple) and arr.base[0] == "arr":
+            av = I_.read(st, arr.base[1])
+            elems = av.get("elems") if isinstance(av, OpaqueV) else None
+        return [(st, OpaqueV(call.dest_ty, (("tmpl_len", n), ("fmt_elems", elems))))]
+
+    def m_write_fmt(I_, st, call):
+        a = call.args[1] if len(call.args) > 1 else None
+        ent = ("fmt", None, None)
+        if isinstance(a, OpaqueV):
+            el = a.get("fmt_elems")
+            shown = None
+            if isinstance(el, StructV) and len(el.fields) == 1 and isinstance(el.fields[0], OpaqueV):
+                shown = el.fields[0].get("display_of")
+            what = None
+            if isinstance(shown, IntV):
+                what = ("int", shown.aff)
+            elif isinstance(shown, SliceV):
+                what = ("str", shown.base)
+            elif isinstance(shown, RefV):
+                inner = I_.read(st, shown.place)
+                if isinstance(inner, SliceV):
+                    what = ("str", inner.base)
+                elif isinstance(inner, IntV):
+                    what = ("int", inner.aff)
+            ent = ("fmt", a.get("tmpl_len"), what)
+        _log(st, "w", ent)
+        from summaries import mk_ok
+        return [(st, mk_ok(UNIT, call.dest_ty))]
+    I.extra_models["core::fmt::rt::Argument::<'_>::new_display"] = m_new_display
+    I.extra_models["core::fmt::Arguments::<'a>::new"] = m_arguments_new
+    I.extra_models["core::fmt::Write::write_fmt"] = m_write_fmt
+
+    def kind_of(call, idx):
+        fty = call.arg_tys[idx] if len(call.arg_tys) > idx else None
+        if fty is not None and fty[0] == "closure" and fty[1] in prog.bodies:
+            return closure_alnum_kind(prog, prog.bodies[fty[1]])
+        return None
+
+    def m_find(I_, st, call):
+        k = kind_of(call, 1)
+        s_none, s_some = st, st.copy()
+        if k == "not-alnum":
+            s_none.ghost["all-alnum"] = True
+        return [(s_none, mk_none(call.dest_ty)), (s_some, mk_option(I_, I_.fresh_int(s_some, "found", (64, False), 0, (1 << 63) - 1), call.dest_ty))]
+
+    def m_all_any(I_, st, call):
+        k = kind_of(call, 1)
+        s_t, s_f = st, st.copy()
+        if call.name == "all" and k == "alnum":
+            s_t.ghost["all-alnum"] = True
+        if call.name == "any" and k == "not-alnum":
+            s_f.ghost["all-alnum"] = True
+        return [(s_t, boolv(True)), (s_f, boolv(False))]
+    I.extra_models["core::str::<impl str>::find"] = m_find
+    I.extra_models["core::iter::traits::iterator::Iterator::all"] = m_all_any
+    I.extra_models["core::iter::traits::iterator::Iterator::any"] = m_all_any
+    I.extra_models["<core::str::iter::Chars<'a> as core::iter::traits::iterator::Iterator>::all"] = m_all_any
+    I.extra_models["<core::str::iter::Chars<'a> as core::iter::traits::iterator::Iterator>::any"] = m_all_any
+
+
+def run_writer_method(prog, body, is_attr_writer, flags=None):
+    """-> (I, args, [(state, normalised write log)]) for a writer method run with no earlier failure"""
+    I = new_interp(prog)
+    instrument_writer(I, prog)
+    gargs = (("param", "T"),)
+    st = State()
+    subst = prog.body_subst(body, gargs)
+    args = [I.mat(st, prog.ty(body["locals"][i + 1]["ty"], subst), "a%d" % i) for i in range(body["arg_count"])]
+    a = prog.adts.get("link_format::LinkFormatWrite")
+    fi = {f["name"]: i for i, f in enumerate(a["variants"][0]["fields"])} if a else {}
+    me = args[0]
+    if is_attr_writer:
+        if isinstance(me, StructV) and isinstance(me.fields[0], TopV) and me.fields[0].ty is not None:
+            me = StructV([I.mat(st, me.fields[0].ty, "lfw")] + list(me.fields[1:]))
+            args[0] = me
+        lf_ref = me.fields[0] if isinstance(me, StructV) else None
+    else:
+        lf_ref = me
+    if not isinstance(lf_ref, RefV) or "error" not in fi:
+        return None
+    lty = lf_ref.ty[2] if getattr(lf_ref, "ty", None) else None
+    I.ensure(st, lf_ref.place, lty, "lfw")
+    I.write(st, lf_ref.place.extend(("f", fi["error"])), mk_none(None))
+    for name, val in (flags or {}).items():
+        if name in fi:
+            I.write(st, lf_ref.place.extend(("f", fi[name])), IntV(Aff.const(1 if val else 0), (1, False), cond=("const", bool(val))))
+    I.no_join_bodies.add(body["id"])
+    I.no_join_prefixes = ("link_format::",)
+    I, res = run(prog, body, args=args, st=st, I=I, gargs=gargs)
+    out = [(s, norm_writes(tuple(s.ghost.get("w", ())))) for s, _ in res]
+    return I, args, out
+
+
+def check_writer_methods(prog, rep, lsep, asep, site_of):
+    WL = find_body(prog, "link_format::LinkFormatWrite::<'a, T>::link")
+    WA = find_body(prog, "link_format::LinkAttributeWrite::<'_, '_, T>::attr")
+    WU = find_body(prog, "link_format::LinkAttributeWrite::<'_, '_, T>::attr_u32")
+    W16 = find_body(prog, "link_format::LinkAttributeWrite::<'_, '_, T>::attr_u16")
+    if None in (WL, WA, WU, W16):
+        rep.missing("C16.3", "link / attr / attr_u32 / attr_u16")
+        return
+    import summaries2
+    # ---- link(): separator only between links, then <target>
+    ok, seen = True, []
+    for first in (True, False):
+        for nl in (True, False):
+            r = run_writer_method(prog, WL, False, {"is_first": first, "add_newlines": nl})
+            if r is None:
+                ok = False
+                continue
+            I, args, outs = r
+            tgt = summaries2.as_slice(I, State(), args[1], None)
+            tb = tgt.base if tgt is not None else None
+            want = ([] if first else [chr(lsep) + ("\n\r" if nl else "")])
+            for s, log in outs:
+                flat = []
+                for x in log:
+                    if isinstance(x, str) and flat and isinstance(flat[-1], str):
+                        flat[-1] += x
+                    else:
+                        flat.append(x)
+                # expected: [sep] "<" TARGET ">"   (constant text merges with its neighbours)
+                exp_a = [(want[0] if want else "") + "<", "T", ">"]
+                got = ["T" if (isinstance(x, tuple) and ((x[0] == "fmt" and x[1] == 2 and x[2] == ("str", tb)) or (x[0] == "str" and x[1] == tb))) else x for x in flat]
+                seen.append(got)
+                if got != exp_a:
+                    ok = False
+    rep.ob("C16.3", "writer|link", ok,
+           "link() does not write  [',' (+ newline)] '<' target '>'  - the separator exactly between links (writes seen: %s)" % [norm(x) for x in seen[:3]], site_of(WL),
+           sample={"rule": "C16.3", "link_paths": len(seen)})
+    # ---- attr_u32 / attr_u16: ;key= and the number through core's Display
+    for body, nm in ((WU, "attr_u32"), (W16, "attr_u16")):
+        r = run_writer_method(prog, body, True)
+        okn, seen = r is not None, []
+        if r is not None:
+            I, args, outs = r
+            ks = summaries2.as_slice(I, State(), args[1], None)
+            kb = ks.base if ks is not None else None
+            val = args[2]
+            okn = bool(outs)
+            for s, log in outs:
+                seen.append(log)
+                if not (len(log) == 4 and log[0] == chr(asep) and log[1] == ("str", kb) and log[2] == "="
+                        and isinstance(log[3], tuple) and log[3][0] == "fmt" and log[3][1] == 2 and isinstance(val, IntV) and log[3][2] == ("int", val.aff)):
+                    okn = False
+        rep.ob("C16.7", "%s|display" % nm, okn,
+               "%s does not write  ';' key '='  followed by the number itself through core's decimal Display ('{}') and nothing else "
+               "(writes seen: %s); a hand-rolled conversion is not decided and is reported (fail closed)" % (nm, [norm(x) for x in seen[:2]]), site_of(body),
+               sample={"rule": "C16.7", "method": nm, "paths": len(seen)})
+    # ---- attr(): bare only after an all-alphanumeric verdict; otherwise the quoted form
+    r = run_writer_method(prog, WA, True)
+    okb, n_bare, n_quoted, seen = r is not None, 0, 0, []
+    if r is not None:
+        I, args, outs = r
+        ks = summaries2.as_slice(I, State(), args[1], None)
+        vs = summaries2.as_slice(I, State(), args[2], None)
+        kb, vb = (ks.base if ks is not None else None), (vs.base if vs is not None else None)
+        for s, log in outs:
+            seen.append(log)
+            if log == [chr(asep), ("str", kb), "=", ("str", vb)]:
+                n_bare += 1
+                if not s.ghost.get("all-alnum"):
+                    okb = False
+            elif (len(log) >= 3 and log[0] == chr(asep) and log[1] == ("str", kb) and isinstance(log[2], str) and log[2].startswith('="')) \
+                    or (("gh", "r0") in s.cells and log and isinstance(log[-1], str) and log[-1].endswith('"')):
+                # the quoted form (C16.4 decides its content; after its per-character loop only the closing quote is left in the log)
+                n_quoted += 1
+            else:
+                okb = False
+    rep.ob("C16.2", "bare-only-alnum", okb and n_bare >= 1 and n_quoted >= 1,
+           "attr() writes a value bare on a path without the verdict 'every character is ASCII alphanumeric', or does not fall back to the "
+           "quoted form otherwise (bare paths %d, quoted paths %d, writes seen: %s)" % (n_bare, n_quoted, [norm(x) for x in seen[:3]]), site_of(WA),
+           sample={"rule": "C16.2", "bare_paths": n_bare, "quoted_paths": n_quoted})
